@@ -1,7 +1,7 @@
 SPECIFICATION Spec
 CONSTANTS
   MaxEntries = 2
-  Pres = {"a", "main"}
+  Pres = {"a", "main", "gop_autogen_x"}
   Exts = {".xgo", ".go", ".gox", ".spx", "_yap.gox", ".txt"}
   CKs = {"default", "yap", "txtproj"}
   Modes = {"plain", "goasxgo"}
